@@ -18,6 +18,8 @@ PROFILES = {
 }
 
 N_RANDOM = {"quick": 3000, "thorough": 60000}
+N_LIFE = {"quick": 2500, "thorough": 50000}
+LIFE_PIDS = ("C01", "C02", "C03", "C05", "C07", "C08", "C12", "C15", "C16", "C17")
 
 BLUR_CONFIGS = [Config(usage=True, blur=b, allow_list=(i % 2 == 0)) for i, b in enumerate([1, 7, 60, 61, 97, 3600, 86400])]
 USAGE_CONFIGS = [c for c in CONFIGS if c.usage]
@@ -62,6 +64,9 @@ def jobs(pid, tier, seed):
         if tier == "thorough" and i % 4 == 1:
             job["long"] = 3        # every fourth history of the thorough tier is three times as long
         out.append(job)
+    if pid in LIFE_PIDS:
+        # channel life cycles (mon/lifegen.py): few identifiers, returning sides, lingering connections, time windows
+        out += [{"kind": "random", "seed": seed * 1000003 + 5000000 + i, "life": 1} for i in range(N_LIFE[tier])]
     return out
 
 
@@ -460,9 +465,9 @@ def run_job(pid, job, acc):
         if job.get("long"):
             g["steps"] = g.get("steps", 60) * job["long"]
             g["max_conns"] = g.get("max_conns", 6) + 3
-        hist = generate(s, **g)
+        hist = generate(s, style=("life" if job.get("life") else None), **g)
         cfg = cfg_for(s, configs_for(pid))
-        run_hist(acc, hist, cfg, s, "random:%d" % s, nontrivial_keys=p["keys"],
+        run_hist(acc, hist, cfg, s, ("life:%d" if job.get("life") else "random:%d") % s, nontrivial_keys=p["keys"],
                  keep_sample=(len(acc.samples) < 1))
     else:
         for case, hist, cfg, opts in scenarios.build(pid, job["name"], job["params"]):
